@@ -580,6 +580,10 @@ class Fn:
                 v = self.new_cell(tg.id, fo[0], fo[1], st2)
                 arms.append(('let', v, fo[0], self.block(rest, st2, tail)))
             return self.binds(pre, ('if', c, arms[0], arms[1]))
+        if isinstance(tg, ast.Name) and isinstance(s.value, ast.Name) and s.value.id in st.env \
+                and st.env[s.value.id][0] == 'cell' and tg.id not in st.env:
+            st.env[tg.id] = st.env[s.value.id]      # a second name for the same object
+            return self.block(rest, st, tail)
         if isinstance(tg, ast.Name):
             fo = self.fresh_object(s.value, st)
             if fo is not None:
